@@ -75,6 +75,11 @@ where
                     // We either still have data or we got some new data. Try to
                     // write it to the other side.
                     let processed = ready!(this.other.as_mut().poll_write(cx, new_buf))?;
+                    if processed == 0 {
+                        // `new_buf` is not empty: the other side no longer accepts bytes.
+                        // Looping on would spin forever within this one poll.
+                        break Poll::Ready(Err(io::ErrorKind::WriteZero.into()));
+                    }
                     Pin::new(&mut *this.us).consume(processed);
                     read_amt += processed;
                     *this.read_state = ReadState::Transferring(read_amt);
